@@ -358,4 +358,4 @@ def main(ctx):
     # ---- shape family (SFShape / MC_SHAPE): each operation has ONE prescribed result, executed on block layouts
     shape.run(ctx, 1500 if quick else 40000)
     ctx.counters['sweep_ops'] = len(SWEEP)
-    return ctx.finish(rule='M/R: every admissible layout x select/drop/mask x column key (all slices, lists, masks) x 4 row selections of MC_C03 (quick replays a 12%% seeded sample of the dump, thorough all); V: C04/C08 random operations on up to 6 layouts each + %d-operation interface sweep on up to 5 layouts + read-route events; shape family: every state of MC_SHAPE (reindex / roll / shift / head / tail / duplicated / drop_duplicated / isin / transpose / clip on a 3x4 Frame and Series, 4x4 thorough) replayed on block layouts, plus seeded random cases validated by Trace_Ops' % len(SWEEP))
+    return ctx.finish(rule='M/R: every admissible layout x select/drop/mask x column key (all slices, lists, masks) x 4 row selections of MC_C03 (quick replays a 12%% seeded sample of the dump, thorough all); V: C04/C08 random operations on up to 6 layouts each + %d-operation interface sweep on up to 5 layouts + read-route events; shape family: every state of MC_SHAPE (reindex / roll / shift / head / tail / duplicated / drop_duplicated / isin / transpose / clip / searchsorted (positions and labels, both sides, element and array forms) on a 3x4 Frame and Series, 4x4 thorough) replayed on block layouts, plus seeded random cases validated by Trace_Ops' % len(SWEEP))
